@@ -7,6 +7,8 @@ CONSTANTS
   FIX_MOVED = TRUE
   FIX_RMALL = TRUE
   FIX_PATHKEY = TRUE
+  FIX_ONLYDIR = TRUE
+  REUSE_EARLY = FALSE
   FIX_ENOENT = TRUE
 INVARIANTS TrueNames NoSpuriousError RemoveWorks Covered OwnTreeOnly
 CHECK_DEADLOCK FALSE
